@@ -131,6 +131,25 @@ def run(ctx: Ctx) -> None:
             ctx.check(ok, "RF-EXC", "method-TypeError-is-method-error", fi, h or inv, ok="a TypeError/ArrowInvalid raised by the method takes the method-error path (200 + error marker)",
                       bad="an exception raised by the method is classified as a request error (400)")
 
+    # stream turns: an exception of state.process()/exchange()/produce() is the method's own, whatever its class
+    for spec in ("vgi_rpc/http/server/_app_stream.py:_run_http_exchange_turn", "vgi_rpc/http/server/_app_stream.py:_run_http_producer_turn"):
+        fi = ctx.fn(spec)
+        cfg = cfg_of(fi.node)
+        procs = [c for c in calls(fi) if last_attr(c) == "process" and isinstance(c.func, ast.Attribute) and isinstance(c.func.value, ast.Name)]
+        pr = one(procs, "state.process call", fi)
+        tries = some(try_protecting(cfg, pr), "try around state.process", fi)
+        for cls in ("TypeError", "ValueError", "KeyError", "ArrowInvalid", "RuntimeError"):
+            h = None
+            for t in tries:
+                h = model.first_covering(t, cls)
+                if h is not None:
+                    break
+            st = _status_of_handler(h) if h is not None else None
+            body_txt = " ".join(txt(x) for x in h.body) if h is not None else ""
+            ok = h is not None and st in (None, "INTERNAL_SERVER_ERROR") and "BAD_REQUEST" not in body_txt
+            ctx.check(ok, "RF-EXC", f"method-{cls}-is-method-error:{fi.name}", fi, h or pr, ok=f"{cls} raised by the stream state takes the method-error path",
+                      bad=f"{cls} raised by the stream state's process() is classified as a request error ({st}): the response is a 4xx without the error marker although the method itself failed")
+
     # ------------------------------------------------------------------ (c) classification of the validation region
     for spec in (HTTP_UNARY, HTTP_INIT):
         fi = ctx.fn(spec)
